@@ -601,6 +601,11 @@ var c16VMModel *Model
 // (a concatenation built with append(left.Elements, …) aliases the left
 // operand's spare capacity; `a + []` must be a copy)
 var c16Corpus = []string{
+	// repetition copies nested arrays AND maps per repetition (fix 66b6227; the map case of deepCopy)
+	"a := [{k:1}] * 2\na[0].k = 7\na = a\n",
+	"a := [[1] [2]] * 2\na[3][0] = 9\na[0][0] = 8\na = a\n",
+	"m := {k:[1]}\na := [m] * 3\nm.k[0] = 5\na[1].k[0] = 6\na = a\nm = m\n",
+	"a := [[{k:[1 2]}]] * 2\na[0][0].k[1] = 9\na = a\n",
 	"a := [1 2 3]\nb := a + [4]\nc := b + [5]\nd := b + [6]\nc = c\nd = d\ne := a + []\ne[0] = 9\na = a\nb = b\n",
 	"a := [1 2 3 4 5]\nb := a[0:2]\nc := b + [7]\nd := b + [8]\nc[0] = 1\nr := a * 2\nr2 := r + [9]\nr3 := r + [10]\nr2[1] = 5\na = a\nb = b\nc = c\nd = d\nr = r\nr2 = r2\nr3 = r3\n",
 }
